@@ -34,7 +34,7 @@ impl Universe {
         limits.push(usize::MAX);
         Universe {
             nkeys,
-            vheaps: vec![0, 1, 2, HUGE],
+            vheaps: vec![0, 1, 2, 2 * e, HUGE],
             limits,
             reserve_args: vec![0, 1, 5, usize::MAX, usize::MAX / 2],
             e,
